@@ -2,6 +2,8 @@
 
 package stream
 
+import "time"
+
 // Accessors for the verification harness (/verif, property C19). Compiled only
 // with -tags verif. They are called by the harness scheduler while every
 // goroutine of the stream is parked at a yield point (or blocked), so the
@@ -12,3 +14,6 @@ func (s *Stream) VerifDataChan() chan map[string]any { return s.dataChan }
 
 // VerifExpanding reports the expansion CAS guard.
 func (s *Stream) VerifExpanding() int32 { return s.expanding }
+
+// VerifBlockingTimeout returns the blocking timeout in effect (0 = block for good), to be compared with the configured one.
+func (s *Stream) VerifBlockingTimeout() time.Duration { return s.blockingTimeout }
